@@ -109,6 +109,8 @@ struct Art {
     /// reference model: symbolic versions
     m_iface: Option<String>,
     m_core: Option<(String, Vec<(String, String)>, u8)>, // (self version, recorded dep versions, body constant variant)
+    /// the dependency hashes in the .core file were overwritten after the build (action `tamper`)
+    tampered: bool,
 }
 
 #[derive(Clone, Debug, PartialEq, Eq, Hash, PartialOrd, Ord)]
@@ -244,7 +246,7 @@ impl Family for Staleness {
         let n = w.g.len();
         let depth_max = if ctx.tier == Tier::Quick { 5 } else { 7 };
         let site = format!("graph={};edit={}", gname, kind);
-        let init = St { variants: vec![0; n], arts: vec![Art { iface: None, core: None, m_iface: None, m_core: None }; n] };
+        let init = St { variants: vec![0; n], arts: vec![Art { iface: None, core: None, m_iface: None, m_core: None, tampered: false }; n] };
         let mut seen: HashSet<String> = HashSet::new();
         seen.insert(key(&init));
         let mut frontier: VecDeque<(St, Vec<String>)> = VecDeque::new();
@@ -354,6 +356,7 @@ impl Family for Staleness {
                                     }
                                     next.arts[*i].iface = Some(std::sync::Arc::new(ij));
                                     next.arts[*i].core = Some(std::sync::Arc::new(cj));
+                                    next.arts[*i].tampered = false;
                                     next.arts[*i].m_iface = Some(self_ver.clone());
                                     next.arts[*i].m_core = Some((self_ver, dep_vers, st.variants[*i]));
                                 }
@@ -406,6 +409,7 @@ impl Family for Staleness {
                                 }
                                 if changed {
                                     next.arts[*i].core = Some(std::sync::Arc::new(serde_json::to_string_pretty(&cv).unwrap()));
+                                    next.arts[*i].tampered = true;
                                 }
                             }
                         }
@@ -457,7 +461,9 @@ impl Family for Staleness {
                             }
                             Ok(Err(_)) => {
                                 links_fail += 1;
-                                if fresh {
+                                // (hashes pasted into a .core file need not be those of what it was built
+                                // against: only untouched artifacts promise that fresh means linkable)
+                                if fresh && !st.arts.iter().any(|a| a.tampered) {
                                     push(&mut rep, "link.failed-although-all-fresh", format!("history {:?}", h2), &h2);
                                 }
                             }
@@ -476,7 +482,7 @@ impl Family for Staleness {
             let leaf = n - 1;
             let mut hashes = Vec::new();
             for v in 0..3u8 {
-                let mut st = St { variants: vec![0; n], arts: vec![Art { iface: None, core: None, m_iface: None, m_core: None }; n] };
+                let mut st = St { variants: vec![0; n], arts: vec![Art { iface: None, core: None, m_iface: None, m_core: None, tampered: false }; n] };
                 st.variants[leaf] = v;
                 w.restore(&st);
                 match catch_unwind(AssertUnwindSafe(|| check_package(inputs(&w.root, &w.pkg(leaf), &w.out)))) {
@@ -616,7 +622,7 @@ fn corruption(case: &Value, ctx: &mut Ctx) -> Report {
     let target = case["target"].as_str().unwrap();
     let w = World { g: graph(gname), kind: "fn-added", root: ctx.scratch.fresh_dir("corr-src"), out: ctx.scratch.fresh_dir("corr-out") };
     let n = w.g.len();
-    let st = St { variants: vec![0; n], arts: vec![Art { iface: None, core: None, m_iface: None, m_core: None }; n] };
+    let st = St { variants: vec![0; n], arts: vec![Art { iface: None, core: None, m_iface: None, m_core: None, tampered: false }; n] };
     w.restore(&st);
     // build everything bottom-up
     let mut files: BTreeMap<String, String> = BTreeMap::new();
